@@ -76,3 +76,15 @@ package lossless
 //@   trusted
 //@   modifies nothing
 //@   ensures result1 == nil ==> result0 != nil
+//
+// ---- C16: the VP8L decoder reads the same header fields as the container parser ----
+//@ pure func le32d(b []byte, i int) uint32 = uint32(b[i]) | uint32(b[i+1])<<8 | uint32(b[i+2])<<16 | uint32(b[i+3])<<24
+//
+//@ func (dec *Decoder) decodeHeader
+//@   property C16 C05
+//@   requires dec != nil
+//@   modifies *
+//@   inline NewLosslessReader, ReadBits, shiftBytes, PrefetchBits, IsEndOfStream, setEndOfStream
+//@   ensures result == nil ==> len(data) >= 5 && data[0] == 0x2f
+//@   ensures result == nil ==> dec.Width == 1 + int(le32d(data, 1) & 0x3fff) && dec.Height == 1 + int((le32d(data, 1) >> 14) & 0x3fff)
+//@   ensures result == nil ==> (dec.HasAlpha <==> (le32d(data, 1) >> 28) & 1 != 0) && le32d(data, 1) >> 29 == 0
